@@ -2,6 +2,8 @@ import Driver.Codec
 import LopdfModel.Model.CMap
 import LopdfModel.Model.CMapParse
 import LopdfModel.Spec.CMapRender
+import LopdfModel.Spec.CMapSeg
+import LopdfModel.Lemmas.CMapBuild
 namespace Lopdf.Driver.C15
 open Lopdf Lopdf.Codec Lopdf.CMap
 
@@ -14,6 +16,7 @@ open Lopdf Lopdf.Codec Lopdf.CMap
   cmap_get    <sections> q <code>*      -> ok (-|u<hex>|panic@<site>)*        | err
   cmap_runs   <sections>                -> ok <len>:<lo>-<hi>=<target>,… ×4   | err
   cmap_decode <sections> q <bytes>      -> ok <scalar hex>* | panic@<site> | err
+  cmap_segspec <sections> q <bytes>     -> ok <hex units of Spec segSpec (defines ..) bytes>  (spec against the harness's own oracle)
   cmap_render <sections>                -> ok <hex of the canonical writer's text (Spec/CMapRender.lean)>
   cmap_text_get / cmap_text_decode: the same with `<hex of the CMap stream text>` instead of <sections>
                  (the model parses the text with its own grammar model; `err` = parse error)
@@ -164,6 +167,14 @@ def handle (op : String) (args : List String) : Option String :=
   | "cmap_get" => some (viaSections "get" args)
   | "cmap_runs" => some (viaSections "runs" args)
   | "cmap_decode" => some (viaSections "decode" args)
+  | "cmap_segspec" =>
+    -- the declarative segmentation spec (Spec/CMapSeg.lean) under `defines`: no model code involved
+    some <| match takeSections args with
+    | some (ss, [b]) =>
+      match bytesOfHex b with
+      | some bs => "ok " ++ (let us := CMapSpec.segSpec (CMapSpec.defines (defsOf ss)) (bs.map (·.toNat)); if us.isEmpty then "-" else hexUnits us)
+      | none => "bad-op"
+    | _ => "bad-op"
   | "cmap_render" =>
     some <| match takeSections args with
     | some (ss, []) => "ok " ++ hexTok (CMapRender.renderCMap ss)
